@@ -377,3 +377,53 @@ def r9_from_callable(ctx):
 
 
 RULES.append(r9_from_callable)
+
+
+def r10_binding_entry_points(ctx):
+    """C19.R10: the two entry points through which values enter a job keep them as given.
+    (a) TaskBuilder.with_values(*args, **kwargs): every keyword the caller writes is a parameter name of the *task*; the method therefore
+    must not declare named keyword parameters of its own — such a name would be taken out of **kwargs, the task's parameter of that name
+    silently keeps its default and the caller's value switches an option of the builder instead.
+    (b) JobBuilder.with_node(name, task): the job holds the task that was given, or one whose definition and bound values are the very same
+    objects; a copy made through a serialised form (model_dump / dict / json) converts nested values (models and dataclasses become
+    dicts) and the job no longer carries the values that were bound."""
+    repo = ctx.repo
+    fi = repo.func(f"{B}.TaskBuilder.with_values")
+    ctx.analysed(fi.qual)
+    a = fi.node.args
+    own = [x.arg for x in a.args if x.arg not in ("self", "cls")] + [x.arg for x in a.kwonlyargs]
+    if a.kwarg is None:
+        ctx.undecided("C19.R10", loc(fi), "with_values takes no **kwargs: the rule's model of keyword binding does not apply")
+    elif own:
+        ctx.violation("C19.R10", fi.qual, loc(fi), "with_values binds every keyword to the task",
+                      f"with_values declares the keyword parameter(s) {own} next to **kwargs: with_values({own[0]}=v) on a task whose callable has a parameter called "
+                      f"{own[0]!r} does not bind it (the value is consumed by the builder), so the job carries the signature default instead of the value given")
+    else:
+        ctx.ok("C19.R10", loc(fi), "with_values: only *args / **kwargs — every keyword reaches the task's bound values")
+    wn = repo.func(f"{B}.JobBuilder.with_node")
+    ctx.analysed(wn.qual)
+    n = 0
+    for cls in (f"{B}.TaskBuilder", CORE + "TaskInstance"):
+        flds = {"definition": Atom("DEF"), "static_input_kw": {"a": Atom("VALUE-A")}, "static_input_ps": {"0": Atom("VALUE-0")}}
+        T = Obj(cls, dict(flds), name="TASK")
+        for p in Interp(repo).explore(wn, args={"name": "n", "task": T}, env={"self.nodes": {}, "self.edges": []}):
+            if p.exit[0] != "return":
+                continue
+            sets = [e for e in p.effects if e.kind == "call" and e.data.get("method") in ("set", "__setitem__", "update", "assoc") and e.data["args"]]
+            stored = [x for e in sets for x in e.data["args"] if not isinstance(x, str)]
+            if not stored:
+                ctx.undecided("C19.R10", loc(wn), f"cannot see what with_node stores ({[e.brief()[:60] for e in sets]})")
+                continue
+            n += 1
+            v = stored[-1]
+            same = isinstance(v, Obj) and (v.name == "TASK" or all(vkey(({**v.kwargs, **v.fields}).get(k)) == vkey(x) for k, x in flds.items()))
+            if not same:
+                ctx.violation("C19.R10", wn.qual, loc(wn), "with_node stores the task given",
+                              f"with_node(name, <{cls.rsplit('.', 1)[-1]} with bound values a=VALUE-A, 0=VALUE-0>) stores {vkey(v)[:140]}: not the task given nor one holding the "
+                              f"same definition and value objects — a re-created task whose fields went through a serialised form carries converted values")
+            else:
+                ctx.ok("C19.R10", loc(wn), f"with_node keeps the {cls.rsplit('.', 1)[-1]} (or its very fields) as given")
+    ctx.floor("C19.R10.with_node_paths", n, 2)
+
+
+RULES.append(r10_binding_entry_points)
